@@ -112,11 +112,11 @@ Proof.
 Qed.
 (* ... and fails with a timeout, asking the driver to scrub the id, from t0 + d on: the deadline is counted from the start of this call,
    not from the start of the search *)
-Theorem c12_stream_fires t0 : o_call c = Some t0 -> t0 + d <= now s -> is_running s = true ->
+Theorem c12_stream_fires t0 : o_call c = Some t0 -> t0 + d <= now s -> is_running s = true -> fix25 (fx s) = true ->
   exists c', getop (step s (StreamNext o)) o = Some c' /\ o_status c' = SError /\ o_call c' = None /\
              scrubq (step s (StreamNext o)) = scrubq s ++ [o_mid c].
 Proof.
-  intros Hcall Hle Hr. unfold step. rewrite Hc, Hst, Hrx. cbn [negb]. rewrite Hnone, Hch, Htmo, Hcall. cbn [negb].
+  intros Hcall Hle Hr H25. unfold step, scrub_id. rewrite H25. rewrite Hc, Hst, Hrx. cbn [negb]. rewrite Hnone, Hch, Htmo, Hcall. cbn [negb].
   destruct (Z.leb_spec (t0 + d) (now s)); [|lia]. rewrite Hr. eexists. split; [apply getop_updop_same; exact Hc|]. cbn. repeat split.
 Qed.
 End StreamTimer.
